@@ -16,12 +16,16 @@ import (
 
 type c10rt struct {
 	bodies map[string][]byte
+	ctypes map[string]string
 	status int
 }
 
 func (r *c10rt) RoundTrip(req *http.Request) (*http.Response, error) {
 	b, _ := io.ReadAll(req.Body)
 	r.bodies[req.URL.Host] = b
+	if r.ctypes != nil {
+		r.ctypes[req.URL.Host] = req.Header.Get("Content-Type")
+	}
 	return &http.Response{StatusCode: r.status, Body: io.NopCloser(bytes.NewReader(nil)), Header: http.Header{}}, nil
 }
 
@@ -101,14 +105,20 @@ func VerifC10_HTTPSenderJSON() {
 	verif_Assume(err == nil)
 	u, perr := url.Parse("http://a.example")
 	verif_Assume(perr == nil)
-	rt := &c10rt{bodies: map[string][]byte{}, status: 200}
+	urls := []*url.URL{u}
+	if verif_Bool("twoIndexers") {
+		u2, perr2 := url.Parse("http://b.example")
+		verif_Assume(perr2 == nil)
+		urls = append(urls, u2)
+	}
+	rt := &c10rt{bodies: map[string][]byte{}, ctypes: map[string]string{}, status: 200}
 	opts := []Option{WithClient(&http.Client{Transport: rt})}
 	var configured []byte
 	if verif_Bool("senderHasExtraData") {
 		configured = verif_Bytes("senderExtra", 2)
 		opts = append(opts, WithExtraData(configured))
 	}
-	s, err := New([]*url.URL{u}, pid, opts...)
+	s, err := New(urls, pid, opts...)
 	verif_Assume(err == nil)
 	c, cerr := cid.Cast([]byte{0x01, 0x55, 0x00, 0x01, verif_U8("cidDigest")})
 	verif_Assume(cerr == nil)
@@ -128,7 +138,15 @@ func VerifC10_HTTPSenderJSON() {
 	verif_Assert(s.SendJson(context.Background(), msg) == nil, "sending JSON succeeds")
 	var viaJSON message.Message
 	verif_Assert(json.Unmarshal(rt.bodies["a.example"], &viaJSON) == nil, "the JSON body decodes")
+	for _, uu := range urls {
+		// a receiver picks its decoder from the Content-Type: a JSON body must say so, to every indexer
+		verif_Assert(rt.ctypes[uu.Host] == "application/json", "a JSON announcement is labelled as JSON for every indexer")
+		verif_Assert(bytes.Equal(rt.bodies[uu.Host], rt.bodies["a.example"]), "every indexer receives the same bytes")
+	}
 	verif_Assert(s.Send(context.Background(), msg) == nil, "sending CBOR succeeds")
+	for _, uu := range urls {
+		verif_Assert(rt.ctypes[uu.Host] != "application/json", "a CBOR announcement is not labelled as JSON")
+	}
 	var viaCBOR message.Message
 	verif_Assert(viaCBOR.UnmarshalCBOR(bytes.NewReader(rt.bodies["a.example"])) == nil, "the CBOR body decodes")
 	verif_Reach("both decoded")
